@@ -521,6 +521,9 @@ func lexInsideAction(l *lexer) stateFn {
 			l.emit(itemUnderscore)
 			return lexInsideAction
 		}
+		// peek() overwrote the width of the '_' read above, restore it so
+		// the backup() below steps back over the '_' only
+		l.width = Pos(utf8.RuneLen(r))
 		fallthrough // no space? must be the start of an identifier
 	case isAlphaNumeric(r):
 		l.backup()
